@@ -155,9 +155,9 @@ func c09Doc(c *fw.Case) map[string]any {
 			u["addr"] = map[string]any{"city": gen.Pick(c.R, []any{"Oslo", "Rome", "Lima"}), "geo": []any{float64(c.Intn(90)), float64(c.Intn(90))}}
 		}
 		if c.Chance(0.7) {
-			tags := make([]any, c.Intn(3))
+			tags := make([]any, c.Intn(7))
 			for j := range tags {
-				tags[j] = gen.Pick(c.R, []any{"p", "q", "r"})
+				tags[j] = gen.Pick(c.R, []any{"p", "q", "r", "s"})
 			}
 			u["tags"] = tags
 		}
@@ -553,6 +553,18 @@ func c09Grammar(c *fw.Case) {
 		doc = c09Doc(c)
 		sel = c09Selector(c, doc, force, &feats)
 	}
+	if force == "fn.distinct" || (force == "" && c.Chance(0.04)) {
+		// distinct=> over an array reached through keys only (the document's own
+		// slice is handed to the function) holding duplicates followed by other values
+		doc["colors"] = []any{"red", "green", "red", "blue", "green", "black"}[:3+c.Intn(4)]
+		doc["palette"] = map[string]any{"colors": []any{1.0, 1.0, 2.0, 1.0, 3.0, 2.0, 4.0}[:2+c.Intn(6)]}
+		if c.Chance(0.5) {
+			sel = ref.Selector{Segments: []ref.Segment{{Fn: "distinct", Steps: []ref.SelStep{ref.KeyStep{Name: "colors"}}}}}
+		} else {
+			sel = ref.Selector{Segments: []ref.Segment{{Fn: "distinct", Steps: []ref.SelStep{ref.KeyStep{Name: "palette"}, ref.KeyStep{Name: "colors"}}}}}
+		}
+		feats = append(feats, "fn.distinct", "key")
+	}
 	text := sel.Render()
 	want, werr := ref.EvalSelector(sel, val.Copy(doc))
 	if werr != nil && errors.Is(werr, ref.ErrDomain) {
@@ -566,10 +578,20 @@ func c09Grammar(c *fw.Case) {
 		nsteps += len(sg.Steps)
 	}
 	c.Sample(map[string]any{"selector": text, "expected": val.Show(want), "expected_error": werr != nil})
-	for pass, d := range []map[string]any{doc, val.CopyMap(doc)} {
+	// the second evaluation (warm parse cache) runs on a document whose arrays
+	// have other lengths: whatever the cache holds must not depend on the first document
+	doc2 := resizeArrays(c, val.CopyMap(doc)).(map[string]any)
+	want2, werr2 := ref.EvalSelector(sel, val.Copy(doc2))
+	for pass, d := range []map[string]any{doc, doc2} {
+		if pass == 1 {
+			if werr2 != nil && errors.Is(werr2, ref.ErrDomain) {
+				break
+			}
+			want, werr = want2, werr2
+		}
 		before := val.Snap(d)
 		got, err, pan, stack := reader(d, text)
-		det := map[string]any{"selector": text, "doc": doc, "expected": val.Show(want), "expected_error": fmt.Sprint(werr), "observed": val.Show(got), "observed_error": fmt.Sprint(err), "pass": pass}
+		det := map[string]any{"selector": text, "doc": d, "expected": val.Show(want), "expected_error": fmt.Sprint(werr), "observed": val.Show(got), "observed_error": fmt.Sprint(err), "pass": pass}
 		if pan != nil {
 			det["stack"] = firstN(stack, 30)
 			c.Violate("panic", fmt.Sprintf("ExecReader(%q) panicked: %v", text, pan), det)
@@ -593,6 +615,34 @@ func c09Grammar(c *fw.Case) {
 	if werr != nil || (nsteps >= 2 && want != nil) {
 		c.Nontrivial(text + "|" + val.Canon(doc))
 	}
+}
+
+// resizeArrays returns v with some arrays one element longer (a copy of an
+// existing element appended) or one element shorter.
+func resizeArrays(c *fw.Case, v any) any {
+	switch t := v.(type) {
+	case map[string]any:
+		for k, x := range t {
+			t[k] = resizeArrays(c, x)
+		}
+		return t
+	case []any:
+		for i, x := range t {
+			t[i] = resizeArrays(c, x)
+		}
+		switch c.Intn(5) {
+		case 0, 1:
+			if len(t) > 0 {
+				return append(t, val.Copy(t[c.Intn(len(t))]))
+			}
+		case 2:
+			if len(t) > 1 {
+				return t[:len(t)-1]
+			}
+		}
+		return t
+	}
+	return v
 }
 
 // sameSelValue: Canon equality, except that nil slices and empty slices are
